@@ -262,6 +262,15 @@ def tier_cases(draw):
                           gen.interval_tier(style=style, max_segments=7),
                           gen.point_tier(style=style, dups=True)))
     a, b = draw(region_for([spec["entries"]], style, spec["minT"], spec["maxT"]))
+    if spec["type"] == "point" and style != "grid" and draw(st.integers(0, 4)) == 0:
+        # two same-labelled points closer than the library's fuzzy entry equality, the region starting between them:
+        # the later one goes, the earlier one stays
+        t0 = draw(st.integers(1, 40)) / 10 + 0.05
+        d = t0 * 3e-10
+        spec["entries"] = sorted([e for e in spec["entries"] if not t0 - 0.01 < e[0] < t0 + 0.01] + [[t0, "a"], [t0 + d, "a"]])
+        spec["maxT"] = max(spec["maxT"], t0 + 1.0)
+        spec["minT"] = min(spec["minT"], t0)
+        a, b = t0 + d / 2, t0 + draw(st.sampled_from([0.5, 1.0, 0.3]))
     pre = draw(st.one_of(st.none(), st.none(), st.fixed_dictionaries({"delete": st.one_of(st.none(), st.integers(0, 7))})))
     return {"tier": spec, "a": a, "b": b, "mode": draw(st.sampled_from(MODES)), "shrink": draw(st.booleans()), "pre": pre}
 
